@@ -1,1 +1,501 @@
-/-! # C01 — property theorems (not built yet) -/
+import RsMatterVerif.Lemmas.Case
+import RsMatterVerif.Props.C19
+/-!
+# C01 — CASE admits only holders of a valid NOC of the addressed fabric
+-/
+namespace C01
+open Cert Case
+
+theorem responder_session_implies_auth (t : Time) (ctx : RespCtx) (m : Msg) (s : Session) (r : ResRec)
+    (h : respSigma3 t ctx m = some (s, r)) :
+    ∃ noc icac sig,
+      -- Sigma3 is a ciphertext under this handshake's S3K carrying a chain and a signature
+      m = .sigma3 (.enc (s3k ctx.secret ctx.fabric.ipk ctx.s1 ctx.s2) nonceS3 (tbe3 noc icac sig)) ∧
+      -- the chain is valid (C19) up to the root of the fabric the destination id selected,
+      -- and carries that fabric's id
+      CaseValid t ctx.fabric.view noc icac ∧
+      -- proof of possession of the NOC key over this handshake's ephemeral keys
+      sig = Term.sign noc.pubKey (tbs noc icac ctx.peerEph (.epk ctx.eph)) ∧
+      -- the session is bound to exactly that fabric, node id and CATs
+      s.fabIdx = ctx.fabric.idx ∧ nodeIdOf noc.subject = some s.peerNode ∧
+      s.cats = catsOf noc.subject ∧ s.localNode = ctx.fabric.nodeId ∧
+      -- keys from the transcript of this handshake
+      s.i2r = .part 0 (sessionKeys ctx.secret ctx.fabric.ipk ctx.s1 ctx.s2 m) ∧
+      s.r2i = .part 1 (sessionKeys ctx.secret ctx.fabric.ipk ctx.s1 ctx.s2 m) ∧
+      s.sharedSecret = ctx.secret ∧
+      -- the resumption record takes the same identity and this handshake's secret
+      r = { fabIdx := s.fabIdx, peerNode := s.peerNode, cats := s.cats, rid := ctx.rid, secret := ctx.secret } := by
+  unfold respSigma3 at h
+  split at h
+  · rename_i k n p
+    split at h
+    · cases h
+    · rename_i hk
+      simp only [ne_eq, not_or, Decidable.not_not] at hk
+      split at h
+      · cases h
+      · rename_i noc icac sig hp
+        have hp' := parseTbe_some hp
+        split at h
+        · cases h
+        · rename_i hv
+          split at h
+          · cases h
+          · rename_i hsig
+            simp only [ne_eq, Decidable.not_not] at hsig
+            split at h
+            · cases h
+            · split at h
+              · cases h
+              · rename_i peer hpeer
+                simp only [Option.some.injEq, Prod.mk.injEq] at h
+                obtain ⟨hs, hr⟩ := h
+                refine ⟨noc, icac, sig, ?_, (C19.validateCase_iff _ _ _ _).1 hv, hsig, ?_⟩
+                · rw [hk.1, hk.2, hp']; rfl
+                · subst hs; subst hr
+                  exact ⟨rfl, hpeer, rfl, rfl, rfl, rfl, rfl, rfl⟩
+  · cases h
+
+
+/-- the fabric of the handshake is the one the destination id of Sigma1 selects: the first fabric
+of the table whose HMAC over (initiator random, root key, fabric id, own node id) equals it -/
+theorem respSigma1_selects_fabric (fabrics : List Fabric) (m : Msg) (eph : Nat) (rnd rid sid : Term)
+    (ctx : RespCtx) (h : respSigma1 fabrics m eph rnd rid sid = .sent ctx) :
+    ∃ iRnd iSid dest iEph resume,
+      m = .sigma1 iRnd iSid dest iEph resume ∧ findFabric fabrics iRnd dest = some ctx.fabric ∧
+      ctx.fabric ∈ fabrics ∧
+      destId ctx.fabric.ipk iRnd ctx.fabric.root.pubKey ctx.fabric.fabricId ctx.fabric.nodeId = dest ∧
+      ctx.s1 = m ∧ ctx.peerEph = iEph ∧ ctx.eph = eph ∧ ctx.secret = ecdh eph iEph ∧ ctx.peerSid = iSid ∧
+      ctx.rid = rid ∧ ctx.sid = sid := by
+  unfold respSigma1 at h
+  split at h
+  · rename_i iRnd iSid dest iEph resume
+    split at h
+    · cases h
+    · rename_i f hf
+      simp only [RespOut1.sent.injEq] at h
+      subst h
+      refine ⟨iRnd, iSid, dest, iEph, resume, rfl, hf, ?_, ?_, rfl, rfl, rfl, rfl, rfl, rfl, rfl⟩
+      · exact List.mem_of_find?_eq_some hf
+      · have := List.find?_some hf
+        simpa using this
+  · cases h
+
+/-- **Responder, resumption**: a session completed on the resumption path takes the identity of
+a cached record whose secret produced the `Resume1MIC` of the received Sigma1 (for the random
+and resumption id that Sigma1 carries), and only after a success status report. -/
+theorem responder_resume_implies_mic (fabrics : List Fabric) (cache : List ResRec) (m1 m2 : Msg)
+    (newRid sid : Term) (ctx : RespResumeCtx) (s : Session) (r' : ResRec)
+    (h1 : respResume fabrics cache m1 newRid sid = some ctx)
+    (h2 : respResumeFinish ctx m2 = some (s, r')) :
+    ∃ rec ∈ cache, ∃ iRnd iSid dest iEph,
+      m1 = .sigma1 iRnd iSid dest iEph
+        (some (rec.rid, Term.mic (resumeKey rec.secret iRnd rec.rid infoS1RK) nonceR1)) ∧
+      m2 = .status true ∧
+      s.fabIdx = rec.fabIdx ∧ s.peerNode = rec.peerNode ∧ s.cats = rec.cats ∧
+      s.i2r = .part 0 (resumeSessionKeys rec.secret iRnd rec.rid) ∧
+      s.r2i = .part 1 (resumeSessionKeys rec.secret iRnd rec.rid) ∧
+      r' = { rec with rid := newRid } := by
+  unfold respResume at h1
+  split at h1
+  · rename_i iRnd iSid dest iEph rid mic1
+    split at h1
+    · cases h1
+    · rename_i rec hrec
+      split at h1
+      · cases h1
+      · rename_i hmic
+        simp only [ne_eq, Decidable.not_not] at hmic
+        split at h1
+        · cases h1
+        · rename_i f hf
+          simp only [Option.some.injEq] at h1
+          subst h1
+          unfold respResumeFinish at h2
+          split at h2
+          · simp only [Option.some.injEq, Prod.mk.injEq] at h2
+            obtain ⟨hs, hr⟩ := h2
+            have hrid : rec.rid = rid := by
+              have := List.find?_some hrec; simpa using this
+            refine ⟨rec, List.mem_of_find?_eq_some hrec, iRnd, iSid, dest, iEph, ?_, rfl, ?_⟩
+            · rw [hrid, hmic, hrid]
+            · subst hs; subst hr
+              exact ⟨rfl, rfl, rfl, rfl, rfl, rfl⟩
+          · cases h2
+  · cases h1
+
+/-- **Initiator**: Sigma3 is only sent (and the handshake only continues) if Sigma2 is a
+ciphertext under this handshake's S2K carrying a chain valid for the initiator's fabric, for the
+node id the initiator addressed, with a signature by the NOC key over this handshake's
+ephemeral keys. -/
+theorem initiator_sigma2_implies_auth (t : Time) (c : InitCtx) (m : Msg) (c3 : InitCtx3)
+    (h : initSigma2 t c m = some c3) :
+    ∃ rRnd rSid rEph noc icac sig rid,
+      m = .sigma2 rRnd rSid rEph
+        (.enc (s2k (ecdh c.eph rEph) c.fabric.ipk rRnd rEph c.s1) nonceS2 (tbe2 noc icac sig rid)) ∧
+      CaseValid t c.fabric.view noc icac ∧
+      nodeIdOf noc.subject = some c.peerNode ∧
+      sig = Term.sign noc.pubKey (tbs noc icac rEph (.epk c.eph)) ∧
+      c3.ctx = c ∧ c3.s2 = m ∧ c3.cats = catsOf noc.subject ∧ c3.secret = ecdh c.eph rEph ∧
+      c3.peerSid = rSid ∧ c3.peerRid = rid ∧
+      c3.s3 = .sigma3 (.enc (s3k (ecdh c.eph rEph) c.fabric.ipk c.s1 m) nonceS3
+        (tbe3 c.fabric.noc c.fabric.icac
+          (Term.sign c.fabric.opKey (tbs c.fabric.noc c.fabric.icac (.epk c.eph) rEph)))) := by
+  unfold initSigma2 at h
+  split at h
+  · rename_i rRnd rSid rEph k n p
+    simp only at h
+    split at h
+    · cases h
+    · rename_i hk
+      simp only [ne_eq, not_or, Decidable.not_not] at hk
+      split at h
+      · rename_i noc icac sig rid hp
+        have hp' := parseTbe_some hp
+        split at h
+        · cases h
+        · rename_i hv
+          split at h
+          · cases h
+          · rename_i hnode
+            simp only [ne_eq, Decidable.not_not] at hnode
+            split at h
+            · cases h
+            · rename_i hsig
+              simp only [ne_eq, Decidable.not_not] at hsig
+              split at h
+              · cases h
+              · simp only [Option.some.injEq] at h
+                subst h
+                refine ⟨rRnd, rSid, rEph, noc, icac, sig, rid, ?_, (C19.validateCase_iff _ _ _ _).1 hv,
+                  hnode, hsig, rfl, rfl, rfl, rfl, rfl, rfl, rfl⟩
+                rw [hk.1, hk.2, hp']; rfl
+      · cases h
+  · cases h
+
+/-- the initiator's session is bound to its own fabric, the addressed node id and the CATs of
+the validated NOC, with keys from its transcript; it needs a success status report -/
+theorem initiator_session_implies_auth (t : Time) (c : InitCtx) (m2 m4 : Msg) (c3 : InitCtx3)
+    (s : Session) (r : ResRec) (h2 : initSigma2 t c m2 = some c3) (h4 : initFinish c3 m4 = some (s, r)) :
+    m4 = .status true ∧ s.fabIdx = c.fabric.idx ∧ s.peerNode = c.peerNode ∧
+    s.localNode = c.fabric.nodeId ∧
+    (∃ noc icac, CaseValid t c.fabric.view noc icac ∧ nodeIdOf noc.subject = some s.peerNode ∧
+      s.cats = catsOf noc.subject) ∧
+    s.i2r = .part 0 (sessionKeys c3.secret c.fabric.ipk c.s1 m2 c3.s3) ∧
+    s.r2i = .part 1 (sessionKeys c3.secret c.fabric.ipk c.s1 m2 c3.s3) := by
+  obtain ⟨rRnd, rSid, rEph, noc, icac, sig, rid, hm, hv, hn, hsig, hc, hs2, hcats, hsec, _, _, hs3⟩ :=
+    initiator_sigma2_implies_auth t c m2 c3 h2
+  unfold initFinish at h4
+  split at h4
+  · simp only [Option.some.injEq, Prod.mk.injEq] at h4
+    obtain ⟨hs, _⟩ := h4
+    subst hs
+    rw [hc, hs2]
+    exact ⟨rfl, rfl, rfl, rfl, ⟨noc, icac, hv, hn, hcats⟩, rfl, rfl⟩
+  · cases h4
+
+/-- initiator, resumption: only a `Resume2MIC` under the cached secret (for this handshake's
+random and the new resumption id) completes the session, with the cached identity -/
+theorem initiator_resume_implies_mic (c : InitCtx) (m : Msg) (s : Session) (r' : ResRec)
+    (h : initSigma2Resume c m = some (s, r')) :
+    ∃ rec newRid rSid, c.cached = some rec ∧
+      m = .sigma2Resume newRid (Term.mic (resumeKey rec.secret c.rnd newRid infoS2RK) nonceR2) rSid ∧
+      s.fabIdx = rec.fabIdx ∧ s.peerNode = rec.peerNode ∧ s.cats = rec.cats ∧
+      s.i2r = .part 0 (resumeSessionKeys rec.secret c.rnd rec.rid) ∧
+      s.r2i = .part 1 (resumeSessionKeys rec.secret c.rnd rec.rid) ∧
+      r' = { rec with rid := newRid } := by
+  unfold initSigma2Resume at h
+  split at h
+  · rename_i newRid mic2 rSid rec hc
+    split at h
+    · cases h
+    · rename_i hmic
+      simp only [ne_eq, Decidable.not_not] at hmic
+      simp only [Option.some.injEq, Prod.mk.injEq] at h
+      obtain ⟨hs, hr⟩ := h
+      subst hs; subst hr
+      exact ⟨rec, newRid, rSid, hc, by rw [hmic], rfl, rfl, rfl, rfl, rfl, rfl⟩
+  · cases h
+
+
+/-! ## Agreement: whoever accepts the peer's own ciphertext has seen the peer's transcript -/
+
+theorem ecdh_comm (a b : Nat) : ecdh a (.epk b) = ecdh b (.epk a) := by
+  unfold ecdh
+  by_cases h1 : a ≤ b <;> by_cases h2 : b ≤ a <;> simp [h1, h2]
+  · omega
+  · omega
+
+/-- the Sigma2 an honest responder emits -/
+theorem respSigma1_s2 (fabrics : List Fabric) (m : Msg) (eph : Nat) (rnd rid sid : Term)
+    (ctx : RespCtx) (h : respSigma1 fabrics m eph rnd rid sid = .sent ctx) :
+    ∃ iEph, ctx.peerEph = iEph ∧ ctx.secret = ecdh eph iEph ∧ ctx.s1 = m ∧
+    ctx.s2 = .sigma2 rnd sid (.epk eph)
+      (.enc (s2k ctx.secret ctx.fabric.ipk rnd (.epk eph) m) nonceS2
+        (tbe2 ctx.fabric.noc ctx.fabric.icac
+          (Term.sign ctx.fabric.opKey (tbs ctx.fabric.noc ctx.fabric.icac (.epk eph) iEph)) rid)) := by
+  unfold respSigma1 at h
+  split at h
+  · rename_i iRnd iSid dest iEph resume
+    split at h
+    · cases h
+    · simp only [RespOut1.sent.injEq] at h
+      subst h
+      exact ⟨iEph, rfl, rfl, rfl, rfl⟩
+  · cases h
+
+/-- **Initiator side of agreement**: if the initiator accepts the Sigma2 an honest responder
+produced, then that responder had received exactly the initiator's Sigma1 (any change of any
+Sigma1 field in flight is detected here), both computed the same ECDH secret, and the chain and
+signature the initiator validated are the responder's own. -/
+theorem initiator_accepts_honest_sigma2 (fabrics : List Fabric) (m1' : Msg) (eph : Nat)
+    (rnd rid sid : Term) (ctx : RespCtx) (t : Time) (c : InitCtx) (c3 : InitCtx3)
+    (hR : respSigma1 fabrics m1' eph rnd rid sid = .sent ctx)
+    (hI : initSigma2 t c ctx.s2 = some c3) :
+    m1' = c.s1 ∧ c3.secret = ctx.secret ∧ ctx.fabric.ipk = c.fabric.ipk ∧
+    nodeIdOf ctx.fabric.noc.subject = some c.peerNode := by
+  obtain ⟨iEph, _, hsec, hs1, hs2⟩ := respSigma1_s2 fabrics m1' eph rnd rid sid ctx hR
+  obtain ⟨rRnd, rSid, rEph, noc, icac, sig, rid', hm, _, hn, _, _, _, _, hsec3, _⟩ :=
+    initiator_sigma2_implies_auth t c ctx.s2 c3 hI
+  rw [hs2] at hm
+  simp only [Msg.sigma2.injEq, Term.enc.injEq, s2k, Term.kdf.injEq, Term.pair.injEq, tt1,
+    Term.hash.injEq, tbe2, Term.cert.injEq] at hm
+  obtain ⟨_, _, hEph, ⟨hk, ⟨hipk, _, _, htt⟩, _⟩, _, hnoc, _⟩ := hm
+  refine ⟨toTerm_inj htt, ?_, hipk, ?_⟩
+  · rw [hsec3, ← hk]
+  · rw [hnoc]; exact hn
+
+/-- **Responder side of agreement / keys_agree**: if the responder accepts the Sigma3 an honest
+initiator produced, then both hold the same Sigma1 and Sigma2 (any change of any Sigma1 / Sigma2
+field in flight is detected here at the latest), the same secret and IPK, hence the same
+directional keys; and the responder's session is bound to the initiator's own NOC. -/
+theorem keys_agree (t t' : Time) (ctx : RespCtx) (c : InitCtx) (m2 : Msg) (c3 : InitCtx3)
+    (sR sI : Session) (rR rI : ResRec)
+    (hI2 : initSigma2 t' c m2 = some c3)
+    (hR : respSigma3 t ctx c3.s3 = some (sR, rR))
+    (hI4 : initFinish c3 (.status true) = some (sI, rI)) :
+    ctx.s1 = c.s1 ∧ ctx.s2 = m2 ∧ sR.i2r = sI.i2r ∧ sR.r2i = sI.r2i ∧
+    sR.sharedSecret = sI.sharedSecret ∧
+    nodeIdOf c.fabric.noc.subject = some sR.peerNode ∧ sR.cats = catsOf c.fabric.noc.subject := by
+  obtain ⟨noc, icac, sig, hm, _, _, _, hnode, hcats, _, hi2r, hr2i, hR', hrec⟩ :=
+    responder_session_implies_auth t ctx c3.s3 sR rR hR
+  obtain ⟨rRnd, rSid, rEph, noc2, icac2, sig2, rid2, hm2, _, _, _, hc, hs2, _, hsec, _, _, hs3⟩ :=
+    initiator_sigma2_implies_auth t' c m2 c3 hI2
+  rw [hs3] at hm
+  simp only [Msg.sigma3.injEq, Term.enc.injEq, s3k, Term.kdf.injEq, Term.pair.injEq, tt2,
+    Term.hash.injEq, tbe3, Term.cert.injEq] at hm
+  obtain ⟨⟨hk, ⟨hipk, ht1, ht2⟩, _⟩, _, hnoc, _⟩ := hm
+  have h1 : c.s1 = ctx.s1 := toTerm_inj ht1
+  have h2 : m2 = ctx.s2 := toTerm_inj ht2
+  unfold initFinish at hI4
+  simp only [Option.some.injEq, Prod.mk.injEq] at hI4
+  obtain ⟨hsI, _⟩ := hI4
+  subst hsI
+  have hsec' : c3.secret = ctx.secret := by rw [hsec, hk]
+  refine ⟨h1.symm, h2.symm, ?_, ?_, ?_, ?_, ?_⟩
+  · rw [hi2r]; simp only [hc, hs2, hsec', hipk, h1, h2, hs3]
+  · rw [hr2i]; simp only [hc, hs2, hsec', hipk, h1, h2, hs3]
+  · rw [hR']; exact hsec'.symm
+  · rw [hnoc]; exact hnode
+  · rw [hnoc]; exact hcats
+
+
+/-! ## Tampering: single changes of the handshake messages -/
+
+/-- Sigma1 changed in flight (any field, or replaced / replayed as a whole): the initiator does
+not accept the Sigma2 the responder builds on it — no Sigma3 is sent, no session on either side. -/
+theorem tamper_sigma1_no_session (fabrics : List Fabric) (m1' : Msg) (eph : Nat)
+    (rnd rid sid : Term) (ctx : RespCtx) (t : Time) (c : InitCtx)
+    (hR : respSigma1 fabrics m1' eph rnd rid sid = .sent ctx) (hne : m1' ≠ c.s1) :
+    initSigma2 t c ctx.s2 = none := by
+  cases h : initSigma2 t c ctx.s2 with
+  | none => rfl
+  | some c3 => exact absurd (initiator_accepts_honest_sigma2 fabrics m1' eph rnd rid sid ctx t c c3 hR h).1 hne
+
+/-- Sigma1 or Sigma2 changed in flight, Sigma3 relayed: the responder rejects the initiator's
+Sigma3 (different transcript hash ⇒ different S3K). -/
+theorem tamper_sigma12_no_session (t t' : Time) (ctx : RespCtx) (c : InitCtx) (m2 : Msg) (c3 : InitCtx3)
+    (hI2 : initSigma2 t' c m2 = some c3) (hne : ctx.s1 ≠ c.s1 ∨ ctx.s2 ≠ m2) :
+    respSigma3 t ctx c3.s3 = none := by
+  cases h : respSigma3 t ctx c3.s3 with
+  | none => rfl
+  | some p =>
+    obtain ⟨sR, rR⟩ := p
+    have := keys_agree t t' ctx c m2 c3 sR _ rR _ hI2 h rfl
+    rcases hne with h1 | h1
+    · exact absurd this.1 h1
+    · exact absurd this.2.1 h1
+
+/-- anything that is not a ciphertext under this handshake's S3K (bit flips, truncation, replay of
+a Sigma3 of another handshake, another message type) gives the responder no session -/
+theorem tamper_sigma3_no_session (t : Time) (ctx : RespCtx) (m : Msg)
+    (h : ∀ p, m ≠ .sigma3 (.enc (s3k ctx.secret ctx.fabric.ipk ctx.s1 ctx.s2) nonceS3 p)) :
+    respSigma3 t ctx m = none := by
+  cases hr : respSigma3 t ctx m with
+  | none => rfl
+  | some q =>
+    obtain ⟨s, r⟩ := q
+    obtain ⟨noc, icac, sig, hm, _⟩ := responder_session_implies_auth t ctx m s r hr
+    exact absurd hm (h _)
+
+/-- likewise for the initiator and Sigma2 -/
+theorem tamper_sigma2_no_session (t : Time) (c : InitCtx) (m : Msg)
+    (h : ∀ rRnd rSid rEph p, m ≠ .sigma2 rRnd rSid rEph
+      (.enc (s2k (ecdh c.eph rEph) c.fabric.ipk rRnd rEph c.s1) nonceS2 p)) :
+    initSigma2 t c m = none := by
+  cases hr : initSigma2 t c m with
+  | none => rfl
+  | some c3 =>
+    obtain ⟨rRnd, rSid, rEph, noc, icac, sig, rid, hm, _⟩ := initiator_sigma2_implies_auth t c m c3 hr
+    exact absurd hm (h _ _ _ _)
+
+/-- the final status report: anything but success leaves the initiator without a session (the
+responder keeps the session of the untouched run) -/
+theorem tamper_status_no_session (c3 : InitCtx3) (m : Msg) (h : m ≠ .status true) :
+    initFinish c3 m = none := by
+  unfold initFinish
+  split
+  · exact absurd rfl h
+  · rfl
+
+/-- what `try_handle_sigma1_resume` has established when it answers with `Sigma2_Resume` -/
+theorem respResume_some (fabrics : List Fabric) (cache : List ResRec) (m : Msg) (newRid sid : Term)
+    (ctx : RespResumeCtx) (h : respResume fabrics cache m newRid sid = some ctx) :
+    ∃ rec ∈ cache, ∃ iRnd iSid dest iEph,
+      m = .sigma1 iRnd iSid dest iEph
+        (some (rec.rid, Term.mic (resumeKey rec.secret iRnd rec.rid infoS1RK) nonceR1)) ∧
+      ctx.record = rec ∧ ctx.newRid = newRid ∧
+      ctx.s2r = .sigma2Resume newRid (Term.mic (resumeKey rec.secret iRnd newRid infoS2RK) nonceR2) sid ∧
+      ctx.session.i2r = .part 0 (resumeSessionKeys rec.secret iRnd rec.rid) ∧
+      ctx.session.r2i = .part 1 (resumeSessionKeys rec.secret iRnd rec.rid) := by
+  unfold respResume at h
+  split at h
+  · rename_i iRnd iSid dest iEph rid mic1
+    split at h
+    · cases h
+    · rename_i rec hrec
+      split at h
+      · cases h
+      · rename_i hmic
+        simp only [ne_eq, Decidable.not_not] at hmic
+        split at h
+        · cases h
+        · simp only [Option.some.injEq] at h
+          subst h
+          have hrid : rec.rid = rid := by
+            have := List.find?_some hrec; simpa using this
+          refine ⟨rec, List.mem_of_find?_eq_some hrec, iRnd, iSid, dest, iEph, ?_, rfl, rfl, rfl, rfl, rfl⟩
+          rw [hrid, hmic, hrid]
+  · cases h
+
+/-- **resumption, keys_agree**: the responder resumes on the initiator's own Sigma1 and the
+initiator accepts the responder's own `Sigma2_Resume` ⇒ same directional keys and the same
+rotated resumption id on both sides -/
+theorem resume_keys_agree (f : Fabric) (cacheI cacheR : List ResRec) (peer eph : Nat) (rnd sidI : Term)
+    (fabrics : List Fabric) (newRid sid : Term) (ctxR : RespResumeCtx) (sR sI : Session) (rR rI : ResRec)
+    (h1 : respResume fabrics cacheR (initSigma1 f cacheI peer eph rnd sidI).s1 newRid sid = some ctxR)
+    (h2 : respResumeFinish ctxR (.status true) = some (sR, rR))
+    (h3 : initSigma2Resume (initSigma1 f cacheI peer eph rnd sidI) ctxR.s2r = some (sI, rI)) :
+    sR.i2r = sI.i2r ∧ sR.r2i = sI.r2i ∧ rR.rid = rI.rid := by
+  obtain ⟨recR, _, iRnd, iSid, dest, iEph, hm1, hrec, hnr, hs2r, hki, hkr⟩ :=
+    respResume_some fabrics cacheR _ newRid sid ctxR h1
+  obtain ⟨recI, newRid', rSid, hc, hm, _, _, _, hIi, hIr, hrI⟩ :=
+    initiator_resume_implies_mic _ ctxR.s2r sI rI h3
+  unfold respResumeFinish at h2
+  simp only [Option.some.injEq, Prod.mk.injEq] at h2
+  obtain ⟨hsR, hrR⟩ := h2
+  -- the initiator's Sigma1 carries its own record's id and MIC
+  have hcached : (initSigma1 f cacheI peer eph rnd sidI).cached = some recI := hc
+  simp only [initSigma1] at hm1 hcached hIi hIr
+  rw [hcached] at hm1
+  simp only [Option.map_some, Msg.sigma1.injEq, Option.some.injEq, Prod.mk.injEq, Term.mic.injEq,
+    resumeKey, Term.kdf.injEq, Term.pair.injEq] at hm1
+  obtain ⟨hrnd, _, _, _, hrid, ⟨hsec, _, _⟩, _⟩ := hm1
+  rw [hs2r] at hm
+  simp only [Msg.sigma2Resume.injEq] at hm
+  obtain ⟨hnew, _, _⟩ := hm
+  refine ⟨?_, ?_, ?_⟩
+  · rw [← hsR, hki, hIi, ← hsec, ← hrid, ← hrnd]
+  · rw [← hsR, hkr, hIr, ← hsec, ← hrid, ← hrnd]
+  · rw [← hrR, hrI, hnr, hnew]
+
+
+/-! ## What is *not* proved: the Dolev-Yao closure
+
+The theorems above cover every message that is (a) relayed from the honest peer, or (b) not a
+ciphertext under the handshake key.  The remaining case — an attacker who *constructs* a
+ciphertext under S2K / S3K — needs the secrecy of the ECDH result against the Dolev-Yao
+deduction relation below; this statement is kept as a definition, not proved. -/
+
+/-- what an on-path attacker who knows the terms `K` (everything sent so far, all public data,
+its own secrets) can construct -/
+inductive Derivable (K : List Term) : Term → Prop
+  | known {t} : t ∈ K → Derivable K t
+  | atom (n) : Derivable K (.atom n)
+  | none : Derivable K .none
+  | cert (c) : Derivable K (.cert c)
+  | pair {a b} : Derivable K a → Derivable K b → Derivable K (.pair a b)
+  | fst {a b} : Derivable K (.pair a b) → Derivable K a
+  | snd {a b} : Derivable K (.pair a b) → Derivable K b
+  | hash {a} : Derivable K a → Derivable K (.hash a)
+  | kdf {a b c} : Derivable K a → Derivable K b → Derivable K c → Derivable K (.kdf a b c)
+  | mac {a b} : Derivable K a → Derivable K b → Derivable K (.mac a b)
+  | mic {a b} : Derivable K a → Derivable K b → Derivable K (.mic a b)
+  | enc {k n p} : Derivable K k → Derivable K n → Derivable K p → Derivable K (.enc k n p)
+  | dec {k n p} : Derivable K (.enc k n p) → Derivable K k → Derivable K p
+  | part {i t} : Derivable K t → Derivable K (.part i t)
+
+/-- full statement of the tamper clause for Sigma3 (not proved): if the attacker knows neither
+ephemeral secret of the handshake (i.e. `K` only contains what was sent on the wire and public
+data), every Sigma3 it can construct and the responder accepts is the initiator's own. -/
+def C01_full : Prop :=
+  ∀ (t t' : Time) (ctx : RespCtx) (c : InitCtx) (c3 : InitCtx3) (K : List Term) (m : Msg),
+    initSigma2 t' c ctx.s2 = some c3 →
+    K = [ctx.s1.toTerm, ctx.s2.toTerm, c3.s3.toTerm, ctx.fabric.ipk] →
+    Derivable K m.toTerm → (respSigma3 t ctx m).isSome → m = c3.s3
+
+/-! ## Non-vacuity: a concrete honest handshake (full and resumed) -/
+
+def devNoc : Cert :=
+  { C19.exNocDirect with subject := [.nodeId 200, .fabricId 7], skid := some 8, pubKey := 8 }
+
+def ctlFabric : Fabric :=
+  { idx := 1, fabricId := 7, root := C19.exRoot, ipk := .atom 77, nodeId := 5, noc := C19.exNoc,
+    icac := some C19.exIcac, opKey := 9 }
+
+def devFabric : Fabric :=
+  { idx := 2, fabricId := 7, root := C19.exRoot, ipk := .atom 77, nodeId := 200, noc := devNoc,
+    icac := .none, opKey := 8 }
+
+def exInit : InitCtx := initSigma1 ctlFabric [] 200 11 (.atom 501) (.atom 601)
+
+def exResp : RespCtx :=
+  match respSigma1 [devFabric] exInit.s1 12 (.atom 502) (.atom 702) (.atom 602) with
+  | .sent ctx => ctx
+  | .refused => default
+
+def exInit3 : InitCtx3 := (initSigma2 C19.exT exInit exResp.s2).getD default
+
+/-- the honest run completes on both sides … -/
+example : (respSigma3 C19.exT exResp exInit3.s3).isSome = true := by decide
+example : (initFinish exInit3 (.status true)).isSome = true := by decide
+/-- … with the responder's session bound to the controller's NOC (node 5, CAT 65537, fabric
+index 2 = the fabric the destination id selected) and both sides holding the same keys -/
+example : ((respSigma3 C19.exT exResp exInit3.s3).map fun p => (p.1.fabIdx, p.1.peerNode, p.1.cats)) =
+    some (2, 5, [65537]) := by decide
+example : ((respSigma3 C19.exT exResp exInit3.s3).map fun p => (p.1.i2r, p.1.r2i)) =
+    ((initFinish exInit3 (.status true)).map fun p => (p.1.i2r, p.1.r2i)) := by decide
+/-- a Sigma1 with one field changed in flight: the initiator refuses the resulting Sigma2 -/
+example :
+    (match respSigma1 [devFabric] (.sigma1 (.atom 501) (.atom 999) (destId (.atom 77) (.atom 501) 0 7 200) (.epk 11) .none)
+        12 (.atom 502) (.atom 702) (.atom 602) with
+      | .sent ctx => (initSigma2 C19.exT exInit ctx.s2).isSome
+      | .refused => true) = false := by decide
+/-- a destination id for a fabric the responder does not have is refused -/
+example : (match respSigma1 [devFabric] (.sigma1 (.atom 501) (.atom 601) (destId (.atom 78) (.atom 501) 0 7 200) (.epk 11) .none)
+    12 (.atom 502) (.atom 702) (.atom 602) with | .refused => true | _ => false) = true := by decide
+/-- a controller whose NOC chains to another root gets no session -/
+example : (respSigma3 C19.exT { exResp with fabric := { devFabric with root := { C19.exRoot with pubKey := 4, sigBy := some 4 } } }
+    exInit3.s3).isSome = false := by decide
+
+end C01
